@@ -84,13 +84,23 @@ mod c11 {
         let kv = gains3();
         let mut pid = CommandPID::new(r.clone(), cmd0, kv);
         let mut m = Spec { cmd: cmd0, k: kv, st: Ok(None) };
+        // following mode: the command comes from a followed getter and is applied at the start of every update
+        let following = sk(3 + KMAX) == 1;
+        let mut followed = One(Ev::Some(0, cmd0));
+        let mut cur_followed = cmd0;
+        if following { pid.follow(dyn_ref::<Command, One<Command>>(&mut followed)); }
         vk_assert!(pid.get() == Ok(None), "C11.absent_before_first_update");
         let mut i = 0;
         while i < k {
             let e = sk(2 + i);
-            if e < 3 {
+            if e == 6 {
+                // the followed getter's command changes to the next kind (takes effect at the next update)
+                cur_followed = Command::new(kind_of(match PositionDerivative::from(cur_followed) { PositionDerivative::Position => 1, PositionDerivative::Velocity => 2, PositionDerivative::Acceleration => 0 }), cval(i + 1));
+                unsafe { *(&mut followed as *mut One<Command>) = One(Ev::Some(i as i64, cur_followed)); }
+            } else if e < 3 {
                 r.borrow_mut().idx = i;
                 let res = pid.update();
+                if following { m.set(cur_followed); }
                 match evs[i] { Ev::Some(t, s) => m.sample(t, s), Ev::None => { m.st = Ok(None); } Ev::Err(x) => { m.st = Err(x); } }
                 vk_assert!(upd_ok(res, err_of(evs[i])), "C11.update_result");
             } else {
@@ -108,6 +118,7 @@ mod c11 {
             i += 1;
         }
         vk_end!();
+        core::mem::forget(pid);
     }
 }
 '''
@@ -127,7 +138,7 @@ def skeletons(k, events, max_sets=None):
             pad = (9,) * (hist_kmax - k)
             # histories that set the current command again (3) or another value of the same kind (4) use concrete,
             # pairwise different command values, so that rrtk's `command != self.command` is decided during symex
-            out.append((k, kind) + seq + pad + (1 if (3 in seq or 4 in seq) else 0,))
+            out.append((k, kind) + seq + pad + (1 if (3 in seq or 4 in seq) else 0, 0))
     return out
 
 
@@ -137,15 +148,21 @@ def spec(ctx):
     else:
         k, events, max_sets = 4, (0, 1, 2, 3, 4, 5), 2
     sks = skeletons(k, events, max_sets)
+    # following mode (concrete command values): histories with exactly one change of the followed command, plus one without
+    fol = [(0,) * k] + [q for q in itertools.product((0, 1, 2, 6), repeat=k) if sum(1 for e in q if e == 6) == (1 if ctx.quick else 1) or (not ctx.quick and sum(1 for e in q if e == 6) == 2)]
+    for kind in range(3):
+        for seq in fol:
+            sks.append((k, kind) + tuple(seq) + (9,) * (hist_kmax - k) + (1, 1))
     hs = [Harness("c11_command_pid", "e2", unwind=9, skeletons=sks,
                   clause="every sequence of %d events from %s x 3 initial command kinds; output after every event" % (k, list(events)))]
     return {
         "crates": [{"rust": RUST, "harnesses": hs}],
         "functions": ["CommandPID::{new, update, get, set/impl_set, reset}", "PositionDerivativeDependentPIDKValues::evaluate", "State::get_value"],
-        "bounds": {"events per history": k, "event alphabet": "0 sample, 1 absent, 2 error, 3 set(current command), 4 set(same kind, other value), 5 set(next kind, any value); at most %d set event(s) per history, none leading" % max_sets,
+        "bounds": {"events per history": k, "event alphabet": "0 sample, 1 absent, 2 error, 3 set(current command), 4 set(same kind, other value), 5 set(next kind, any value); at most %d set event(s) per history, none leading; "
+                   "plus following mode: 6 = the followed getter's command changes kind (applied at the next update)" % max_sets,
                    "values": "9 gains, command values, state samples: all f32; timestamps |t| < 2^60"},
         "skeleton_space": {"histories": len(sks)},
         "assumptions": ["command equality is Rust's == on Command (a NaN command is different from itself, in rrtk and in the spec alike)"],
-        "not_decided": ["histories longer than %d events" % k, "the follow() path (command supplied by a followed getter) - covered for Settable in general by C15",
+        "not_decided": ["histories longer than %d events" % k, "a followed getter that is absent or erroring (Settable following in general is C15)",
                         "f32 rounding magnitude of the double integral"],
     }
